@@ -80,6 +80,15 @@ class Ctx:
         if cls not in self.sample_keys and len(self.samples) < 6:
             self.sample_keys.add(cls)
             self.samples.append({"op": op, "class": cls, "case": [_show(x) for x in parts][:8]})
+    def bulk(self, op, cls, n, tag):
+        """n distinct cases measured by an external driver (each is a distinct (artifact, re-encoding) by construction)"""
+        self.evals += n
+        self.ops[op] = self.ops.get(op, 0) + n
+        self.classes[cls] = self.classes.get(cls, 0) + n
+        for i in range(n):
+            self.distinct.add(hashlib.blake2b(("%s:%d" % (tag, i)).encode(), digest_size=8).digest())
+        if cls not in self.sample_keys and len(self.samples) < 6:
+            self.sample_keys.add(cls); self.samples.append({"op": op, "class": cls, "case": ["%d cases enumerated by shim/sgdriver.c" % n]})
     def count(self, name, k=1):
         self.counters[name] = self.counters.get(name, 0) + k
     def fail(self, key, detail, cmds=None, config="san"):
@@ -162,7 +171,7 @@ def run_property(prop, tier, replay=None):
     seed = seed_value(); t0 = time.time()
     configs = list(mod.CONFIGS[tier]) if isinstance(getattr(mod, "CONFIGS", None), dict) else ["san"]
     try:
-        build.build_many(configs)
+        build.build_many(configs + list(getattr(mod, "EXTRA_BUILDS", [])))
         if hasattr(mod, "prebuild"): mod.prebuild(tier)
     except build.BuildError as e:
         print("HARNESS-ERROR property=%s build failed\n%s" % (prop, e))
